@@ -403,3 +403,32 @@ func vh_C17_L1_interleaving_option_order() {
 	vassert(a.localInterleaving == want, "and reaches the association")
 	vcover("end")
 }
+
+// C17.L1d: with SNAP the two tokens decide the framing on both sides (= C04.L1 snap).
+func vh_C17_L1_snap_tokens_decide_framing() { vh_C04_L1_snap_tokens() }
+
+// C17.L5b: every association gets a scheduler of its own. The same option value (round robin,
+// weighted fair queueing) applied to two configurations yields two independent scheduler
+// instances: what one association queues is never handed to the other, and resetting one
+// does not empty the other.
+func vh_C17_L5_scheduler_instances_are_independent() {
+	var opt AssociationOption
+	if vPick(2) == 1 {
+		opt = WithInterleavingOptions(WithInterleavingRoundRobinScheduler())
+	} else {
+		opt = WithInterleavingOptions(WithInterleavingWeightedFairQueueingWeight(1, 2))
+	}
+	c1, c2 := &Config{}, &Config{}
+	vassert(opt.applyClient(c1) == nil && opt.applyServer(c2) == nil, "options accepted")
+	q1, q2 := c1.interleaving.newStreamScheduler(), c2.interleaving.newStreamScheduler()
+	q1.Reset()
+	q2.Reset()
+	q1.Push(vFrag(7, 0, 0, 1, false, 1))
+	vassert(q1.Peek() != nil && q2.Peek() == nil, "a chunk queued by one association is not in the other's scheduler")
+	q2.Reset()
+	vassert(q1.Peek() != nil, "resetting one association's scheduler leaves the other's queue alone")
+	q3 := c1.interleaving.newStreamScheduler()
+	q3.Reset()
+	vassert(q1.Peek() != nil && q3.Peek() == nil, "nor does a second scheduler made from the same configuration")
+	vcover("end")
+}
